@@ -2,7 +2,7 @@
 import os
 import shutil
 
-from vf import core, env, table
+from vf import core, env, table, tlc
 from harness import table_common
 
 META = dict(
@@ -30,7 +30,7 @@ META = dict(
 WITNESSES = ("WitnessTakeOther", "WitnessDoneKeeps", "WitnessLookalike", "WitnessWeave")
 LINES = {1: b"a\n", 2: b"b\n", 3: b"<<<<<<< TREE\n", 4: b"z"}
 SUFFIXES = ("BASE", "THIS", "OTHER")
-BATCH = 40
+BATCH = 60
 START, MID, END = b"<<<<<<< TREE\n", b"=======\n", b">>>>>>> MERGE-SOURCE\n"
 
 
@@ -91,8 +91,13 @@ class Batch:
         cp = self.cases[0]["cp"]
         op = os.path.join(self.top, "other")
         tp = os.path.join(self.top, "this")
-        os.makedirs(op)
-        other = controldir.ControlDir.create_standalone_workingtree(op, format=controldir.format_registry.make_controldir("2a"))
+        tmpl = os.path.join(os.path.dirname(self.top), "empty-2a-tree")       # one per worker, copied per batch
+        if not os.path.isdir(tmpl):
+            os.makedirs(tmpl)
+            controldir.ControlDir.create_standalone_workingtree(tmpl, format=controldir.format_registry.make_controldir("2a"))
+        os.makedirs(self.top, exist_ok=True)
+        shutil.copytree(tmpl, op)
+        other = WorkingTree.open(op)
         self._write(op, None if cp else "b")
         other.add(self.names)
         first = other.commit("seed" if cp else "base")
@@ -211,7 +216,11 @@ def features(c):
 def run(ctx):
     env.init()
     consts = {"MaxLen": 2, "FullLen": 0, "WeaveLen": 1} if ctx.quick else {"MaxLen": 3, "FullLen": 2, "WeaveLen": 2}
-    cases, _ = table_common.generate(ctx, "TextConflictGen", consts, witnesses=WITNESSES, workers=8, timeout=2400)
+    cases, _ = table_common.generate(ctx, "TextConflictGen", consts, workers=8, timeout=2400)
+    # anti-vacuity: states of the machine TLC must reach (they do not depend on the text lengths: smallest bounds)
+    for w in WITNESSES:
+        tlc.check(ctx, "TextConflictGen", cfg_text=table.cfg({"MaxLen": 1, "FullLen": 0, "WeaveLen": 1}, (w,)),
+                  expect_violation=w, label="witness " + w, workers=4)
     total = len(cases)
     cases.sort(key=lambda c: (c["mt"], c["rp"], c["sb"], c["cp"], c["act"], c["b"], c["t"], c["o"]))
     groups = {}
